@@ -144,17 +144,29 @@ func (te *TimerEntry) run(ctx context.Context) error {
 	vhook("timer-wait", te.Id, te)
 	select {
 	case <-t.C:
-		te.timers.c.Logf("Firing timer '%s'", te.Id)
-		vhook("timer-due", te.Id, te)
-		te.timers.Emitter(ctx, te)
-		vhook("timer-emitted", te.Id, te)
+		// The timer is due.  Decide under the lock whether it
+		// fires: if this entry is no longer the registered
+		// one, it was cancelled (and maybe replaced) after it
+		// became due, and a cancelled timer must not fire.
+		// Otherwise unregister it before emitting: the id is
+		// free from the moment the timer fires, and whatever
+		// is registered under the id afterwards is not ours
+		// to delete.
 		te.timers.Lock()
+		if cur, have := te.timers.Map[te.Id]; !have || cur != te {
+			te.timers.Unlock()
+			vhook("timer-abandoned", te.Id, te)
+			return nil
+		}
 		delete(te.timers.Map, te.Id)
 		te.timers.Unlock()
 		te.timers.c.Lock()
 		te.timers.changed()
 		te.timers.c.Unlock()
-		vhook("timer-cleaned", te.Id, te)
+		vhook("timer-due", te.Id, te)
+		te.timers.c.Logf("Firing timer '%s'", te.Id)
+		te.timers.Emitter(ctx, te)
+		vhook("timer-emitted", te.Id, te)
 	case <-te.Ctl:
 		te.timers.c.Logf("Canceling timer '%s'", te.Id)
 		vhook("timer-cancel-seen", te.Id, te)
